@@ -48,18 +48,36 @@ def state_roundtrip(ctx, ci, rule='AGREE-1', exclude=()):
     if not (gs and ss and ini):
         raise AnalysisError('%s lacks explicit pickling state methods' % ci.qual)
     spec = _spec(repo, ci.name)
-    attrs = [a for a in init_attrs(ini) if a not in exclude and not a.startswith('_')]
-    if spec is None or not set(spec) <= set(attrs):
-        return pickle_state_agreement(ctx, ci, rule, exclude)
-    for f in (gs, ss, ini):
-        ctx.fn(f)
+    # the attributes __init__ sets up; one it fills through the private name of a property (self._x = None with a property x) counts as the property
+    attrs = []
+    for a in init_attrs(ini):
+        if a.startswith('_') and not a.startswith('__') and repo.find_setter(ci, a[1:]) is not None:
+            a = a[1:]
+        if a not in exclude and not a.startswith('_') and a not in attrs:
+            attrs.append(a)
     I = Interp(repo, _H())
 
     def fresh():
         o = Obj(ci, {})
-        I.call(ini, [], selfv=o)
+        I.call(ini, [None] * max(0, len(ini.params) - 1 - len(ini.node.args.defaults)), selfv=o)
         return o
-    o = fresh()
+    o = None
+    if spec is not None and not set(spec) <= set(attrs):
+        # __init__ may fill the attributes another way (a loop over a table of names, a helper): what it leaves on the object is read from the object
+        try:
+            o = fresh()
+            for a in list(o.attrs):
+                if a.startswith('_') and not a.startswith('__') and repo.find_setter(ci, a[1:]) is not None:
+                    a = a[1:]
+                if a not in exclude and not a.startswith('_') and a not in attrs:
+                    attrs.append(a)
+        except Exception:
+            o = None
+    if spec is None or not set(spec) <= set(attrs):
+        return pickle_state_agreement(ctx, ci, rule, exclude)
+    for f in (gs, ss, ini):
+        ctx.fn(f)
+    o = o if o is not None else fresh()
     for a, v in spec.items():
         setter = repo.find_setter(ci, a)
         priv = setter_private_attr(setter) if setter is not None else None
